@@ -160,7 +160,7 @@ def buffer_legs(ctx, exe, harness, c, nominal, const, tcfg, pcfg, nontrivial):
     base = dict(nominal)
     base["const"] = const
     gens = [
-        ("rb-bfs", dict(base, D=4 if quick else 5, flens="30, 1500", sizes="100", counts="1, 60", mkinds='"mismatch"', lkinds='"malloc"'), None, None),
+        ("rb-bfs", dict(base, D=4 if quick else 5, flens="30, 1500", sizes="100", counts="1, 60" if quick else "60", mkinds='"mismatch"', lkinds='"malloc"'), None, None),
         ("rb-sim", dict(base, D=14, flens="0, 1, 40, 600, 1500, 4095, 5000", sizes="0, 1, 16, 17, 700, 5000", counts="1, 2, 30, 3000",
                         mkinds='"nonalloc", "mismatch", "corrupt"', lkinds='"new", "malloc"'), 12 if quick else 150, 20),
     ]
